@@ -191,12 +191,24 @@ CLAIMS["C27"] = dict(
     note="Restricted to the control-word layer; levels <= 4095.",
 )
 
+CLAIMS["C04"] = dict(
+    engine="kani-transplant",
+    technique="bounded symbolic execution of the delete/update conflict rules (TransactionRebase::check_txn, check_delete_txn, check_update_txn) with Kani+CBMC over symbolic fragment sets and operation kinds",
+    text=("Decides the fragment-level half of 'no lost updates', which is a necessary condition for the property: a Delete or Update transaction that is rebased "
+          "over a committed Delete/Update touching a common fragment is either rejected with a retryable conflict, or -- only when row-level information exists, "
+          "the committed side left the data files alone and did not remove the fragment -- accepted with every common fragment whose deletion file changed marked "
+          "for the row-level rewrite; disjoint fragment sets pass; Merge is a retryable and Overwrite an incompatible conflict (quick); every other operation kind "
+          "incl. Rewrite / DataReplacement of a modified fragment and MemWAL merges (thorough). The row-level intersection itself (finish_delete_update: deletion "
+          "file I/O + RowIdTreeMap & and |) is async I/O; its set operations are decided under C21. That commit_transaction applies these rules to every "
+          "concurrent transaction is orchestration and NOT claimed."),
+    note="Transaction / Operation / Fragment are structural models with the variant list cross-checked against the source; <=1 updated and <=1 removed fragment per side.",
+)
+
 _IO = "truth lives in async object-store/tokio orchestration (crash points, interleavings, listings); Kani/CBMC has no model of tokio or object_store and no pure kernel implies the statement"
 NOT_APPLICABLE.update({
     "C01": "commit atomicity over crash points: " + _IO,
     "C02": "one winner per version slot is a schedule property over PutMode::Create / rename / lock handlers: " + _IO,
     "C03": "serializability compares table contents with a serial replay through build_manifest + deletion-file I/O + scans; the conflict matrix alone (check_*_txn over Transaction/Operation with HashMap/HashSet/Vec<Fragment>) needs the 7-minute Kani build of the lance crate per run and heap-heavy types CBMC cannot carry (DESIGN §4 TXN)",
-    "C04": "lost-update freedom is decided by the same TransactionRebase code as C03 plus async deletion-vector I/O; not encodable within reach (the RowIdTreeMap set operations it relies on are decided under C21)",
     "C05": "manifest well-formedness over arbitrary histories is produced by build_manifest (~1000 lines over Vec<Fragment>, Schema, HashMap, I/O results); no separable pure kernel",
     "C06": "time-travel immutability is a history property of object-store contents: " + _IO,
     "C07": "restore/row-id uniqueness threads next_row_id through build_manifest and manifests read back from storage: " + _IO,
